@@ -5,6 +5,7 @@
 
 use crate::runner::{Ctx, PropDyn};
 
+pub mod c01;
 pub mod c19;
 
 pub type PropList = Vec<(Box<dyn PropDyn>, u32, u32)>;
@@ -17,10 +18,18 @@ pub struct Check {
 }
 
 pub fn all() -> Vec<Check> {
-    vec![Check {
+    vec![
+        Check {
+            id: "C01",
+            props: c01::props,
+            describe: c01::describe,
+            sweeps: Some(c01::sweeps),
+        },
+        Check {
         id: "C19",
         props: c19::props,
         describe: c19::describe,
         sweeps: None,
-    }]
+    },
+    ]
 }
